@@ -37,11 +37,49 @@ def raw_matrix(np, nr, nc, extra, rot, dtype):
     return raw.astype(dtype), cm
 
 
+def poison_raw(np, raw, cm, inp):
+    """stage 6: every sample of the raw file outside the windows that the case requests (the queried spikes on the queried
+    channels, the store's spikes on their stored channels; every unmapped column) holds an extreme value of the sample
+    type (NaN / +-inf / largest magnitude for float files, +-32767/-32768 for int16).  Not used with via='save' stores
+    (phylib chooses their spikes and channels)."""
+    nr, nc, n = raw.shape[0], inp['nc'], inp['n']
+    ns = len(inp['samples'])
+    pairs = []
+    for x in inp['q_ids']:
+        if -ns <= x < ns:
+            pairs.append((inp['samples'][x], inp['q_ch']))
+    st = inp.get('store')
+    if st:
+        for x, row in zip(st['ids'], st['table']):
+            pairs.append((inp['samples'][x], row))
+    ref = np.zeros(raw.shape, dtype=bool)
+    for s, ch in pairs:
+        t0 = int(s) - n // 2
+        lo, hi = max(t0, 0), min(t0 + n, nr)
+        cols = list(range(nc)) if ch is None else sorted(set(int(c) for c in ch if c >= 0))
+        if lo < hi and cols:
+            ref[lo:hi, [cm[c] for c in cols]] = True
+    kind = inp['poison']
+    if raw.dtype.kind == 'f':
+        big = float(np.finfo(raw.dtype).max)
+        vals = {'nan': [np.nan], 'inf': [np.inf], 'ninf': [-np.inf], 'big': [big, -big],
+                'mix': [np.inf, np.nan, -np.inf, big, -big]}[kind]
+    else:
+        info = np.iinfo(raw.dtype)
+        vals = [info.max, info.min] if kind != 'ninf' else [info.min]
+    idx = np.argwhere(~ref)
+    if len(idx):
+        raw[idx[:, 0], idx[:, 1]] = np.array([vals[t % len(vals)] for t in range(len(idx))], dtype=raw.dtype)
+    return raw
+
+
 def write_dataset(np, d, inp):
     """-> kwargs for TemplateModel (with dat_path only if inp['raw'])"""
     from pathlib import Path
     nr, nc, n = sum(inp['sizes']), inp['nc'], inp['n']
     raw, cm = raw_matrix(np, nr, nc, inp.get('extra', 0), inp.get('cmrot', 0), inp['dtype'])
+    if inp.get('poison'):
+        raw = poison_raw(np, raw, cm, inp)
     paths, acc = [], 0
     names = inp.get('names')          # stage 5: names of the raw files in the order they are GIVEN (None: raw0.dat, raw1.dat, ...)
     for j, s in enumerate(inp['sizes']):
